@@ -44,6 +44,11 @@ class SizeCtx:
         self.nbytes_equiv = []  # (canonical base expr with _k vars, bytes per element)
         self.sub_class = {}  # canon(recv) -> ClassInfo
 
+    def guard_text(self, cond):
+        """canonical text of a guard: conditions over the block format are named by the accepted formats they select"""
+        fc = self.un.format_canon(cond)
+        return fc if fc is not None else canon(cond, self.ctx)
+
     def class_const_nbytes(self, k: ClassInfo):
         if k is None:
             return None
@@ -118,7 +123,7 @@ def _wb(sc: SizeCtx, terms, ren, depth) -> Poly:
         elif isinstance(t, Alt):
             a = _wb(sc, t.then, ren, depth)
             b = _wb(sc, t.orelse, ren, depth)
-            g = Poly.atom("[" + canon(_ren(t.cond, ren), un.ctx) + "]")
+            g = Poly.atom("[" + sc.guard_text(_ren(t.cond, ren)) + "]")
             total = total + b + g * (a - b)
         elif isinstance(t, (GuardFail, Fail)):
             pass
@@ -192,7 +197,7 @@ class SizeEval:
             return -self.P(node.operand)
         if isinstance(node, ast.IfExp):
             a, b = self.P(node.body), self.P(node.orelse)
-            g = Poly.atom("[" + canon(self.expr_ast(node.test), self.ctx) + "]")
+            g = Poly.atom("[" + self.sc.guard_text(self.expr_ast(node.test)) + "]")
             return b + g * (a - b)
         if isinstance(node, ast.Call) and norm(node.func) == "sum" and len(node.args) == 1 and isinstance(node.args[0], (ast.GeneratorExp, ast.ListComp)):
             return self.comp(node.args[0], 0)
@@ -239,7 +244,7 @@ class SizeEval:
     def _comp_body(self, g, i, gen):
         inner = self.comp(g, i + 1)
         for c in gen.ifs:
-            inner = inner * Poly.atom("[" + canon(self.expr_ast(c), self.ctx) + "]")
+            inner = inner * Poly.atom("[" + self.sc.guard_text(self.expr_ast(c)) + "]")
         return inner
 
     def with_loop(self, var, iter_, body_fn):
@@ -327,7 +332,7 @@ class SizeEval:
                     self.env[a] = before[a] + sigma(coll, d, deltas[a]) * guard
                 continue
             if isinstance(st, ast.If):
-                c = canon(self.expr_ast(st.test), self.ctx)
+                c = self.sc.guard_text(self.expr_ast(st.test))
                 g1 = guard * Poly.atom("[" + c + "]")
                 r1 = self.block(st.body, g1)
                 if st.orelse:
